@@ -55,6 +55,9 @@ claim('C14', 'CrossHair solver-closed enumeration of class-strings and TextSlice
       '(values, full-text positions, ignored-text boundaries, longest, nothing skipped)',
       'Bounded by text length over the alphabet partition; all windows [a, b); basic and contextual lexers; str and bytes. The longest/skipped clauses are asserted for spans whose isolated '
       'tokenisation equals the in-context one (others counted).', 'Relational: parse() on the substring is the reference; refsem.posref for coordinates.', '3/C14')
+claim('C15', 'CrossHair solver-closed enumeration (realised) of ASCII class-strings, enclosing buffers and representations (bytes, TextSlice of str/bytes, negative indices, whole-text slice) '
+      'through every lexer that accepts the representation; the str parse is the reference, coordinates are checked against the underlying buffer',
+      'Bounded by text length and a fixed list of junk prefix/suffix pairs; 5 parser/lexer pairs.', 'Relational; refsem.posref for coordinates.', '3/C15')
 claim('C16', 'CrossHair symbolic execution of the real embedded-transformer plumbing over lexeme-composed texts for a family of pure transformer classes, and of the four transformer '
       'classes over symbolic tree shapes with call-recording callbacks',
       'Bounded by text length (lexemes), transformer family (5 classes: plain, terminal callbacks, v_args inline, v_args tree, partial) and tree size.',
